@@ -1,39 +1,67 @@
 """The claims table MANIFEST.json is generated from (python3 lib/mkmanifest.py)."""
 
-HOOK_COMMITS = ["85a6b47f472353aeab817961d766ca598af8ef66"]
+HOOK_COMMITS = [
+    "85a6b47f472353aeab817961d766ca598af8ef66",
+    "c11aefdad83e1dbf11174d6aeac8c572ee4a1266",
+]
+
+_K = " Claimed for the named kernels within the per-harness bounds listed in the evidence; the composition of the kernels into the whole operation is outside the claim."
 
 CLAIMS = {
     "C01": {
-        "text": "Bounded model checking of the class reader's decoding kernels: every access-flag decoder (class, field, method, inner class, parameter, four module flag types) is decided against the JVMS bit tables for all 65536 words. Whole-file reading is outside the claim (symbolic execution of duke::read_class does not finish even on a concrete 591-byte class).",
+        "text": "Bounded model checking of the class reader's decoding kernels: every access-flag decoder (class, field, method, inner class, parameter, four module flag types) against the JVMS bit tables for all 65536 words; branch-target resolution (opcode position + signed 16/32-bit offset, error outside 0..=65535, error on truncated operands) for all positions and offsets; switch-operand alignment from every stream position; newarray atype decoding for all 256 bytes. Whole-file reading is outside the claim (symbolic execution of duke::read_class does not finish even on a concrete 591-byte class)." + _K,
         "ref": "DESIGN.md §6 C01",
     },
     "C02": {
-        "text": "Bounded model checking of the class writer's encoding kernels: every access-flag encoder inverts its decoder on the JVMS-defined bits for all 65536 words. Whole-class writing is outside the claim.",
+        "text": "Bounded model checking of the class writer's encoding kernels: if_helper / goto_helper / switch_helper emit bytes that, decoded by the JVMS, branch to exactly the requested target for every opcode position and target in u16 - narrow form iff the offset fits 16 bits, otherwise inverted-condition trampoline + goto_w (resp. goto_w / jsr_w), reserved slots patched later decode to the target for every later target, no arithmetic overflow; switch padding 4-aligns the operands; write_usize_as_u8/u16/u32 are exact or refuse; every access-flag encoder inverts its decoder. Whole-class writing (re-emission fixpoint, constant pool, attribute lengths) is outside the claim." + _K,
         "ref": "DESIGN.md §6 C02",
     },
     "C04": {
-        "text": "Bounded model checking of the generic kernels every level of diff application is built from, instantiated with u8: apply_diff_option equals the four-case table (4 actions x present/absent x matching/mismatching old value) and Action::{from_tuple,to_tuple,flip,is_diff} satisfy their laws, for all values.",
+        "text": "Bounded model checking of the generic kernels every level of diff application and diff generation is built from, instantiated with one-byte keys/names: apply_diff_option equals the four-case table (4 actions x present/absent x matching/mismatching old value); Action::{from_tuple,to_tuple,flip,is_diff} laws; Names::change_name refuses namespace 0 and a mismatching old value and otherwise changes exactly one cell; apply_diff_map over maps with up to 2 targets and 2 diffs equals the reference four-case merge (additions appear, removals drop the node, edits recurse, any inconsistency refuses the whole application, untouched entries keep content and order); gen_diff_names / gen_diff_javadoc produce Add/Remove/Edit per side and apply(diff(a,b),a) == b on the cell level; zip_map_combination is the union of keys in first-seen order." + _K,
         "ref": "DESIGN.md §6 C04",
+    },
+    "C06": {
+        "text": "Bounded model checking of the descriptor scanner map_desc through the public ARemapper default methods, against a reference scanner, on every short ASCII string: exactly the class names inside L...; are replaced by map_class(name), every other byte is preserved, a dangling L or an empty L; is refused; map_class / map_class_any fall back to the unchanged name and route array names through the descriptor path. Remappers built from a Mappings tree and the super-class search are outside the claim." + _K,
+        "ref": "DESIGN.md §6 C06",
+    },
+    "C08": {
+        "text": "Bounded model checking of the permutation and re-keying kernels of reorder: Names::<3,_>::reorder puts cell table[i] into cell i for all 27 index tables and a permutation followed by its inverse is the identity; map_with_key_from_result_iter rejects a missing or duplicate key and otherwise keeps order and content; descriptor re-expression is C06's map_desc kernel. Mappings::reorder as a composition is outside the claim." + _K,
+        "ref": "DESIGN.md §6 C08",
+    },
+    "C09": {
+        "text": "Bounded model checking of the join kernels of merge: zip_map_combination yields exactly the union of keys in first-seen order and tells A-only / B-only / both apart; merge_names places A's name in column 1 and B's in column 2 and refuses differing first names; merge_equal is equality-or-error; merge_javadoc takes the comment from whichever side has one and refuses differing comments. Mappings::merge as a composition is outside the claim." + _K,
+        "ref": "DESIGN.md §6 C09",
+    },
+    "C11": {
+        "text": "Bounded model checking of the inner-class name kernels on every valid short ASCII class name: split_inner_class_parent_and_name splits at the last $, refuses empty sides and package crossings, both halves are valid names, get_inner_class_name/parent agree, from_inner_class re-joins to the original; the contraction kernel keeps exactly the innermost simple name and leaves the source namespace untouched. extend/contract over a Mappings tree are outside the claim." + _K,
+        "ref": "DESIGN.md §6 C11",
+    },
+    "C14": {
+        "text": "Bounded model checking of the name kernels of nesting on every valid short class name over a digit/letter/_/$// alphabet: NestTypeA::new classifies anonymous / inner / local by the digit prefix; strip_local_class_prefix drops leading digits unless all are digits; rsplit_underscore cuts at the last __ and refuses cuts next to a package separator; inner_name follows its three documented cases. nest_jar, attribute synthesis and jar/mappings agreement are outside the claim." + _K,
+        "ref": "DESIGN.md §6 C14",
+    },
+    "C16": {
+        "text": "Bounded model checking of totality of the byte-level parsing kernels: with Kani's panic / overflow / bounds / unwrap checks as the assertion, the field, method and return descriptor parsers and all name predicates neither panic nor overflow on any ASCII string up to the stated length; branch-operand readers return Err on truncated or out-of-range operands for all inputs; newarray atype decoding is total; if_helper reports an over-long method instead of overflowing. The text parsers, whole class files, stack depth and allocation size are outside the claim." + _K,
+        "ref": "DESIGN.md §6 C16",
+    },
+    "C18": {
+        "text": "Bounded model checking of the descriptor and name grammar on every ASCII string up to the stated length: parse() of field / return / method descriptors succeeds iff an independent JVMS 4.3 recogniser accepts and yields the same type structure; write(parse(s)) == s; the validity predicates of ClassName, ArrClassName, ObjClassName, FieldName, MethodName, ParameterName, LocalVariableName equal the documented predicates; inner-class split/join are mutually inverse." + _K,
+        "ref": "DESIGN.md §6 C18",
+    },
+    "C20": {
+        "text": "Bounded model checking of raw_class_file's writer per attribute and per constant-pool entry (a whole ClassFile does not finish symbolic execution): for each modelled value, attribute_length equals the number of bytes that follow it, the announced _len() equals the bytes written, count fields have the JVMS width and value, entries are emitted big-endian in order; every constant-pool entry kind has its JVMS tag, size and layout. Reading, and attributes with nested tables beyond those listed in the evidence, are outside the claim." + _K,
+        "ref": "DESIGN.md §6 C20",
     },
 }
 
-_UC = "check under construction in this round (planned, see DESIGN.md §6); will move to checks or get a final reason"
 NOT_APPLICABLE = {
     "C03": "text round trip through BufRead::lines/split/fmt and a walk of the Mappings tree; symbolic execution of tiny_v2::read on a concrete two-line file exceeds 240 s, so no bounded encoding of the real code is within reach",
     "C05": "file-system scan (std::fs::read_dir) + petgraph + the text parsers; CBMC has no model of std::fs and the graph helper is a nested fn; not encodable",
-    "C06": _UC,
     "C07": "jar level needs zip I/O; class level walks a ClassFile tree through a private trait (larger than the Mappings tree whose one-class walk already exceeds 600 s of symbolic execution)",
-    "C08": _UC,
-    "C09": _UC,
     "C10": "both filters are closures nested in one method over whole Mappings/MappingsDiff trees; a one-class instance exceeds 600 s of symbolic execution and there is no separable kernel",
-    "C11": _UC,
     "C12": "as C03 (line-oriented text I/O and a Mappings walk) plus directory walking (walkdir)",
-    "C13": _UC,
-    "C14": _UC,
+    "C13": "the only separable kernel, merge_preserve_order::<u8-newtype>, stays undecided: with lists of length 1 and 2 symbolic execution does not finish in 1500 s even after loop relayout and with the allocator model (Peekable + next_if closures + Vec growth); everything else needs two ClassFile trees and zip I/O",
     "C15": "the predicate functions are nested inside a method that needs a jar of ClassFiles and a Mappings tree; neither can be walked symbolically within reach",
-    "C16": _UC,
     "C17": "every clause needs a class-file read or a ClassFile::accept walk; symbolic execution of a concrete 591-byte class read exceeds 900 s",
-    "C18": _UC,
     "C19": "the mediation kernel Forest::breadth_first_retain::<u8> exceeds 500 s on a 3-node forest; the scope table is nested in an async fn; effective POMs are async recursion; clean-up keeps a multi-entry std HashSet",
-    "C20": _UC,
 }
